@@ -21,7 +21,7 @@
 (***************************************************************************)
 EXTENDS H2Flow, Json, IOUtils
 
-ASSUME TLCSet(1, 0)
+ASSUME TLCSet(1, 0) /\ TLCSet(2, <<>>) /\ TLCSet(3, 0)
 
 Rec == ndJsonDeserialize(IOEnv.TRACE)
 
@@ -48,17 +48,33 @@ ResetAll ==
   /\ advInit' = ConnInit /\ advConn' = ConnInit /\ advStr' = <<>>
   /\ oweConn' = 0 /\ oweStr' = <<>> /\ enl' = RecvConn - ConnInit /\ ourSet' = FALSE
   /\ starved' = <<>> /\ errOwed' = {} /\ dead' = FALSE
-  /\ last' = NoFrame /\ stall' = FALSE
+  /\ last' = NoFrame /\ stall' = FALSE /\ burst' = 0 /\ dropped' = FALSE
 
 Unch == UNCHANGED vars
 
-\* a run may end when every stream is finished: fully sent and answered, or reset with a reason
-G_Done == \A s \in ids : \/ sst[s] = "reset"
-                         \/ sst[s] = "done" /\ rem[s] = 0 /\ pst[s] = "done"
-\* sozu closes the connection: fine once it is dead (GOAWAY) or everything is finished
-G_Eof == dead \/ G_Done
+\* an event explained only by an open deviation is counted (register 3) so that the check can report the
+\* known finding it reproduces
+CountDev(g) == (g => TLCSet(3, TLCGet(3) + 1)) /\ TRUE
+ByLoopBudget == ~(dead \/ Finished) /\ "LoopBudget" \in Deviations /\ burst >= BurstMin
 
+\* the P_C14 formulas (and T_Conforms) that are false in the current state
+Failed ==
+  (IF P_C14_Windows THEN {} ELSE {"P_C14_Windows"}) \cup
+  (IF P_C14_NewStreamWindow THEN {} ELSE {"P_C14_NewStreamWindow"}) \cup
+  (IF P_C14_FrameSize THEN {} ELSE {"P_C14_FrameSize"}) \cup
+  (IF P_C14_MaxStreams THEN {} ELSE {"P_C14_MaxStreams"}) \cup
+  (IF P_C14_StreamIds THEN {} ELSE {"P_C14_StreamIds"}) \cup
+  (IF P_C14_Hpack THEN {} ELSE {"P_C14_Hpack"}) \cup
+  (IF P_C14_StreamStates THEN {} ELSE {"P_C14_StreamStates"}) \cup
+  (IF P_C14_OwnWindows THEN {} ELSE {"P_C14_OwnWindows"}) \cup
+  (IF P_C14_Progress THEN {} ELSE {"P_C14_Progress"}) \cup
+  (IF dropped /\ bad # <<>> THEN {"P_C14_NeverDropped"} ELSE {}) \cup
+  (IF bad = <<>> THEN {} ELSE {"T_Conforms"})
+
+\* Validation stops at the first state in which a formula fails (TLC would otherwise print the whole
+\* behaviour, tens of thousands of states); the verdict is handed to the POSTCONDITION through a register.
 T_Step ==
+  /\ Failed = {}
   /\ i <= Len(Rec)
   /\ i' = i + 1
   /\ CASE e.ev = "reset" ->
@@ -101,9 +117,17 @@ T_Step ==
        [] e.ev = "SozuGoaway" ->
             IF e.code = 0 THEN Unch /\ Note("SozuGoaway", TRUE)     \* graceful: nothing changes for open streams
             ELSE E_SozuGoaway /\ Note("SozuGoaway", G_SozuGoaway)
+       [] e.ev = "SozuBigFrame" ->                                   \* a frame header of any type, judged by P_C14_FrameSize
+            /\ last' = [NoFrame EXCEPT !.k = "X", !.sid = e.sid, !.len = e.n] /\ stall' = FALSE
+            /\ UNCHANGED <<pend, nset, eff, connWin, strWin, ids, sst, pst, rem, up, nextOurs, lastPeer, cont, needUpd,
+                           advInit, advConn, advStr, oweConn, oweStr, enl, ourSet, starved, errOwed, dead, burst, dropped>>
+            /\ Note("SozuBigFrame", e.n <= eff.maxFrame)
        [] e.ev = "Stall" -> E_Stall /\ Note("Stall", TRUE)             \* judged by P_C14_Progress
-       [] e.ev = "Done" -> Unch /\ Note("Done", G_Done)
-       [] e.ev = "SozuEof" -> Unch /\ Note("SozuEof", G_Eof)
+       [] e.ev = "Idle" -> E_Idle /\ Note("Idle", G_Idle)
+       [] e.ev = "Done" -> Unch /\ Note("Done", Finished)
+       [] e.ev = "SozuEof" ->
+            IF dead THEN Unch /\ Note("SozuEof", TRUE)
+            ELSE E_SozuClose /\ Note("SozuEof", G_SozuClose) /\ CountDev(ByLoopBudget)
        [] OTHER -> Unch /\ Note("unknown-event", FALSE)
 
 TInit == Init /\ i = 1 /\ bad = <<>>
@@ -112,17 +136,23 @@ TraceSpec == TInit /\ [][T_Step]_tvars
 \* every frame the peer saw is a step the spec allows
 T_Conforms == bad = <<>>
 
-Track == (i - 1 > TLCGet(1) => TLCSet(1, i - 1)) /\ TRUE
+Summary == [eff |-> eff, pend |-> Len(pend), connWin |-> connWin,
+            streams |-> [s \in ids |-> [win |-> strWin[s], sst |-> sst[s], pst |-> pst[s], rem |-> rem[s], up |-> up[s],
+                                        adv |-> advStr[s], owe |-> oweStr[s]]],
+            advConn |-> advConn, oweConn |-> oweConn, enl |-> enl, cont |-> cont, dead |-> dead, burst |-> burst,
+            last |-> last]
+
+\* register 1: events consumed; register 2: the verdict on the state reached
+Track == (i - 1 >= TLCGet(1) =>
+            /\ TLCSet(1, i - 1)
+            /\ TLCSet(2, [failed |-> Failed, bad |-> bad, at |-> i - 1, state |-> Summary])) /\ TRUE
 
 TraceAccepted ==
-  /\ IF TLCGet(1) = Len(Rec)
+  /\ IF TLCGet(1) = Len(Rec) /\ TLCGet(2).failed = {}
      THEN PrintT(<<"TRACE-ACCEPTED", TLCGet(1)>>)
-     ELSE PrintT(<<"TRACE-REJECTED", TLCGet(1), Len(Rec)>>)
+     ELSE /\ PrintT(<<"TRACE-REJECTED", TLCGet(1), Len(Rec)>>)
+          /\ PrintT(<<"VERDICT", ToJson(TLCGet(2))>>)
+  /\ PrintT(<<"DEVIATIONS-USED", TLCGet(3)>>)
   /\ TRUE
 
-\* shown in TLC's error trace: where the trace stands
-TraceAlias == [i |-> i, bad |-> bad, ev |-> IF i > 1 /\ i - 1 <= Len(Rec) THEN Rec[i - 1] ELSE <<>>,
-               eff |-> eff, pend |-> pend, connWin |-> connWin, strWin |-> strWin, sst |-> sst, pst |-> pst,
-               rem |-> rem, up |-> up, advConn |-> advConn, advStr |-> advStr, oweConn |-> oweConn, oweStr |-> oweStr,
-               enl |-> enl, errOwed |-> errOwed, dead |-> dead, cont |-> cont, last |-> last]
 =============================================================================
